@@ -409,6 +409,17 @@ InstantiateChild(M, store, p) ==
                      table   |-> IF M.table.present THEN 0 ELSE I.table,
                      globals |-> SubSeq(I.globals, 1, ngi)])
 
+\* ... and the same when the resolver answers the child with other objects than it gave the parent (binds as for Instantiate):
+\* imports are what the resolver returns NOW; only a shared defined memory is still the parent's
+InstantiateChildWith(M, store, p, binds) ==
+    LET I    == store.insts[p]
+        keep == M.memory.present /\ M.memory.shared
+        M2   == IF keep THEN [M EXCEPT !.memory.present = FALSE] ELSE M
+    IN  Instantiate(M2, store,
+                    [mem     |-> IF M.memory.present /\ ~keep THEN 0 ELSE IF keep THEN I.mem ELSE binds.mem,
+                     table   |-> IF M.table.present THEN 0 ELSE binds.table,
+                     globals |-> binds.globals])
+
 \* Segments must lie inside their memory / table, otherwise instantiation fails in the
 \* specification (and is outside what the properties quantify over).
 SegmentsInBounds(M, store, inst) ==
